@@ -28,6 +28,7 @@ func TestSim(t *testing.T) {
 	if os.Getenv("VERIF_SGLOG") == "" {
 		base.DisableTestLogging(t)
 	}
+	base.SkipPrometheusStatsRegistration = true // as the repository's own TestMain does
 	verifsim.WorkerMain(t)
 }
 
